@@ -184,6 +184,34 @@ func gen0(prop string, r *sim.Rand, tier string) sim.Script {
 		}
 		return s
 	}
+	if prop == "C13" && r.Chance(1, 50) {
+		// real pebble: checkpoint, a commit in which several keys get one and the same value (content-addressed nodes
+		// written more than once in one batch), rollback, clean restart of the database
+		s.Store = "pebble"
+		s.Keys = keyPool(r, 3+r.Intn(6))
+		for i := 0; i < 1+r.Intn(3); i++ {
+			s.Ops = append(s.Ops, WOp{K: "upd", I: i, V: genVal(r, i, false)})
+		}
+		s.Ops = append(s.Ops, WOp{K: "commit", N: r.Intn(5), Sync: true}, WOp{K: "saveroot"})
+		same := genVal(r, 100, false)
+		for j := 2 + r.Intn(4); j > 0; j-- {
+			v := same
+			if r.Chance(1, 4) {
+				v = genVal(r, 200+j, false)
+			}
+			s.Ops = append(s.Ops, WOp{K: "upd", I: r.Intn(len(s.Keys)), V: v})
+		}
+		s.Ops = append(s.Ops, WOp{K: "commit", N: r.Intn(5), Sync: r.Chance(1, 2)})
+		if r.Chance(1, 3) {
+			s.Ops = append(s.Ops, WOp{K: "gc"})
+		}
+		s.Ops = append(s.Ops, WOp{K: "rollback", N: r.Intn(2)})
+		for j := r.Intn(3); j > 0; j-- {
+			s.Ops = append(s.Ops, WOp{K: "upd", I: r.Intn(len(s.Keys)), V: genVal(r, 300+j, false)})
+		}
+		s.Ops = append(s.Ops, WOp{K: "commit", N: r.Intn(5), Sync: true})
+		return s
+	}
 	if prop == "C13" && r.Chance(1, 1000) {
 		// a commit steered to an exact number of new storage keys (batch boundaries), then rolled back
 		s.Store = "simkv"
